@@ -182,7 +182,7 @@ CONTRACTS = [
              modifies=["_their_direct_hints", "_our_relay_hints"],
              loops={0: {"header": "for h in hints",
                         "invariant": ["all_valid(self._their_direct_hints)", "all_relays_valid(self._our_relay_hints)"]},
-                    1: {"header": "for rhs in h.get('hints', [])", "retype": {"relay_hints": f"seq[{HINT}]"},
+                    1: {"header": "for rhs in sub_hints", "retype": {"relay_hints": f"seq[{HINT}]"},
                         "invariant": ["all_valid(relay_hints)", "all_valid(self._their_direct_hints)",
                                       "all_relays_valid(self._our_relay_hints)"]}}),
     Contract("wormhole/_dilation/manager.py:Manager.use_hints", props=[PROP], params={"hint_message": "json"},
